@@ -186,8 +186,12 @@ where
         J: ExactSizeIterator<Item = usize>,
     {
         let indices = indices.into_iter().collect::<Vec<_>>();
-        let min_index = *indices.first().unwrap();
         let leaves_vec = leaves.into_iter().collect::<Vec<_>>();
+        // Nothing to remove: this is a plain range write
+        if indices.is_empty() {
+            return self.set_range(start, leaves_vec.into_iter());
+        }
+        let min_index = *indices.first().unwrap();
 
         let max_index = start + leaves_vec.len();
 
